@@ -27,6 +27,7 @@ type wTr struct {
 	fset   string            // name of the *token.FileSet parameter
 	env    map[string]string // Go identifier -> Lean path literal (list of strings), e.g. s -> [] ; expr -> ["X"]
 	posOf  map[string]string // identifier bound to fset.Position(P.Pos()) -> path of P
+	okOf   map[string]string // identifier bound by `v, ok := P.(*ast.T)` -> condition (.isKind P "T")
 	inEach int
 }
 
@@ -128,6 +129,10 @@ func (t *wTr) lenOf(e ast.Expr) (ast.Expr, bool) {
 
 func (t *wTr) cond(e ast.Expr) (string, error) {
 	switch x := e.(type) {
+	case *ast.Ident:
+		if c, ok := t.okOf[x.Name]; ok {
+			return c, nil
+		}
 	case *ast.ParenExpr:
 		return t.cond(x.X)
 	case *ast.UnaryExpr:
@@ -471,7 +476,7 @@ func (t *wTr) act(s ast.Stmt) (string, error) {
 // walker: func (t *IncrementalTrack) name(list []ast.X, fset *token.FileSet) {
 //   for _, v := range list { if v == nil { continue }; switch w := v.(type) { … } } }
 func translateWalker(fd *ast.FuncDecl) (string, error) {
-	t := &wTr{env: map[string]string{}, posOf: map[string]string{}}
+	t := &wTr{env: map[string]string{}, posOf: map[string]string{}, okOf: map[string]string{}}
 	if fd.Recv == nil || len(fd.Recv.List) != 1 || len(fd.Recv.List[0].Names) != 1 {
 		return "", fmt.Errorf("%s: receiver", fd.Name.Name)
 	}
@@ -537,6 +542,366 @@ func translateWalker(fd *ast.FuncDecl) (string, error) {
 	return arms, nil
 }
 
+// ---------------------------------------------------------------- processControlStatements
+
+// fset.Position(P.tok).Line  (a token.Pos FIELD, not a method call) -> (P, tok)
+func (t *wTr) tokLineOf(e ast.Expr) (ast.Expr, string, bool) {
+	sel, ok := e.(*ast.SelectorExpr)
+	if !ok || sel.Sel.Name != "Line" {
+		return nil, "", false
+	}
+	c, ok := sel.X.(*ast.CallExpr)
+	if !ok || len(c.Args) != 1 {
+		return nil, "", false
+	}
+	fs, ok := c.Fun.(*ast.SelectorExpr)
+	if !ok || fs.Sel.Name != "Position" {
+		return nil, "", false
+	}
+	if id, ok := fs.X.(*ast.Ident); !ok || id.Name != t.fset {
+		return nil, "", false
+	}
+	f, ok := c.Args[0].(*ast.SelectorExpr)
+	if !ok {
+		return nil, "", false
+	}
+	return f.X, f.Sel.Name, true
+}
+
+// v, ok := P.(*ast.T)
+func (t *wTr) bindAssert(a *ast.AssignStmt) bool {
+	if a.Tok != token.DEFINE || len(a.Lhs) != 2 || len(a.Rhs) != 1 {
+		return false
+	}
+	v, ok1 := a.Lhs[0].(*ast.Ident)
+	okId, ok2 := a.Lhs[1].(*ast.Ident)
+	ta, ok3 := a.Rhs[0].(*ast.TypeAssertExpr)
+	if !ok1 || !ok2 || !ok3 || ta.Type == nil {
+		return false
+	}
+	st, ok := ta.Type.(*ast.StarExpr)
+	if !ok {
+		return false
+	}
+	sel, ok := st.X.(*ast.SelectorExpr)
+	if !ok {
+		return false
+	}
+	if id, ok := sel.X.(*ast.Ident); !ok || id.Name != "ast" {
+		return false
+	}
+	pp, err := t.path(ta.X)
+	if err != nil {
+		return false
+	}
+	t.bind(v.Name, pp)
+	t.okOf[okId.Name] = fmt.Sprintf("(.isKind %s %q)", leanPath(pp), sel.Sel.Name)
+	return true
+}
+
+func isIdent(e ast.Expr, name string) bool {
+	id, ok := e.(*ast.Ident)
+	return ok && id.Name == name
+}
+
+// `changed` / `changed && C` -> (C or .tt, true);  `!changed && C` -> handled by the caller
+func (t *wTr) splitChanged(e ast.Expr, negated bool) (string, bool) {
+	lead := func(x ast.Expr) bool {
+		if negated {
+			u, ok := x.(*ast.UnaryExpr)
+			return ok && u.Op == token.NOT && isIdent(u.X, "changed")
+		}
+		return isIdent(x, "changed")
+	}
+	if !negated && lead(e) {
+		return ".tt", true
+	}
+	be, ok := e.(*ast.BinaryExpr)
+	if !ok || be.Op != token.LAND || !lead(be.X) {
+		return "", false
+	}
+	c, err := t.cond(be.Y)
+	if err != nil {
+		return "", false
+	}
+	return c, true
+}
+
+// changed = t.isLineChangedRange(line(P.Pos()), line(Q.End()))
+func (t *wTr) rangeAssign(s ast.Stmt) (ast.Expr, ast.Expr, bool) {
+	a, ok := s.(*ast.AssignStmt)
+	if !ok || a.Tok != token.ASSIGN || len(a.Lhs) != 1 || len(a.Rhs) != 1 || !isIdent(a.Lhs[0], "changed") {
+		return nil, nil, false
+	}
+	name, args, ok := t.recvCall(a.Rhs[0])
+	if !ok || name != "isLineChangedRange" || len(args) != 2 {
+		return nil, nil, false
+	}
+	p, wp, ok1 := t.lineOf(args[0])
+	q, wq, ok2 := t.lineOf(args[1])
+	if !ok1 || !ok2 || wp != "Pos" || wq != "End" {
+		return nil, nil, false
+	}
+	return p, q, true
+}
+
+func (t *wTr) cacts(list []ast.Stmt) (string, error) {
+	var out []string
+	for _, s := range list {
+		a, err := t.cact(s)
+		if err != nil {
+			return "", err
+		}
+		if a != "" {
+			out = append(out, a)
+		}
+	}
+	return "[" + strings.Join(out, ", ") + "]", nil
+}
+
+func (t *wTr) cact(s ast.Stmt) (string, error) {
+	switch x := s.(type) {
+	case *ast.AssignStmt:
+		if x.Tok == token.ASSIGN && len(x.Lhs) == 1 && len(x.Rhs) == 1 && isIdent(x.Lhs[0], "changed") && t.inEach == 0 {
+			if name, args, ok := t.recvCall(x.Rhs[0]); ok && name == "isLineChanged" && len(args) == 1 {
+				if p, tok, ok := t.tokLineOf(args[0]); ok {
+					pp, err := t.path(p)
+					if err != nil {
+						return "", err
+					}
+					return fmt.Sprintf(".setLine %s %q", leanPath(pp), tok), nil
+				}
+			}
+		}
+		if t.bindAssert(x) {
+			return "", nil
+		}
+		return "", t.fail(s, "assignment")
+	case *ast.ExprStmt:
+		if name, args, ok := t.recvCall(x.X); ok && name == "forceMarkInsert" && len(args) == 1 {
+			if be, ok := args[0].(*ast.BinaryExpr); ok && be.Op == token.ADD {
+				if bl, ok := be.Y.(*ast.BasicLit); ok && bl.Value == "1" {
+					if p, tok, ok := t.tokLineOf(be.X); ok {
+						pp, err := t.path(p)
+						if err != nil {
+							return "", err
+						}
+						return fmt.Sprintf(".force %s %q", leanPath(pp), tok), nil
+					}
+				}
+			}
+		}
+		return "", t.fail(s, "expression statement")
+	case *ast.RangeStmt:
+		if x.Tok != token.DEFINE || x.Value == nil || !isIdent(x.Key, "_") {
+			return "", t.fail(s, "range form")
+		}
+		v, ok := x.Value.(*ast.Ident)
+		if !ok {
+			return "", t.fail(s, "range value")
+		}
+		pp, err := t.path(x.X)
+		if err != nil {
+			return "", err
+		}
+		name := "$" + v.Name
+		old, had := t.env[v.Name]
+		t.bind(v.Name, []string{name})
+		t.inEach++
+		b, err := t.cacts(x.Body.List)
+		t.inEach--
+		if had {
+			t.env[v.Name] = old
+		} else {
+			delete(t.env, v.Name)
+		}
+		if err != nil {
+			return "", err
+		}
+		return fmt.Sprintf(".each %s %q %s", leanPath(pp), name, b), nil
+	case *ast.IfStmt:
+		if x.Else != nil {
+			return "", t.fail(s, "if with else")
+		}
+		if x.Init != nil {
+			a, ok := x.Init.(*ast.AssignStmt)
+			if !ok || !t.bindAssert(a) {
+				return "", t.fail(s, "if init")
+			}
+		}
+		// if P == nil { break }
+		if len(x.Body.List) == 1 {
+			if br, ok := x.Body.List[0].(*ast.BranchStmt); ok && br.Tok == token.BREAK && br.Label == nil && t.inEach == 0 {
+				c, err := t.cond(x.Cond)
+				if err != nil {
+					return "", err
+				}
+				return ".breakIf " + c, nil
+			}
+		}
+		// if !changed && C { changed = range(...) }  /  { for _, e := range L { changed = range(e, e); if changed { break } } }
+		if c, ok := t.splitChanged(x.Cond, true); ok && len(x.Body.List) == 1 && t.inEach == 0 {
+			if p, q, ok := t.rangeAssign(x.Body.List[0]); ok {
+				pp, err := t.path(p)
+				if err != nil {
+					return "", err
+				}
+				pq, err := t.path(q)
+				if err != nil {
+					return "", err
+				}
+				return fmt.Sprintf(".orRange %s %s %s", c, leanPath(pp), leanPath(pq)), nil
+			}
+			if loop, ok := x.Body.List[0].(*ast.RangeStmt); ok && loop.Tok == token.DEFINE && isIdent(loop.Key, "_") && loop.Value != nil && len(loop.Body.List) == 2 {
+				ev := loop.Value.(*ast.Ident).Name
+				p, q, ok1 := t.rangeAssign(loop.Body.List[0])
+				brk, ok2 := loop.Body.List[1].(*ast.IfStmt)
+				if ok1 && ok2 && isIdent(p, ev) && isIdent(q, ev) && brk.Init == nil && brk.Else == nil && isIdent(brk.Cond, "changed") && len(brk.Body.List) == 1 {
+					if br, ok := brk.Body.List[0].(*ast.BranchStmt); ok && br.Tok == token.BREAK && br.Label == nil {
+						pl, err := t.path(loop.X)
+						if err != nil {
+							return "", err
+						}
+						return fmt.Sprintf(".orAnyRange %s %s", c, leanPath(pl)), nil
+					}
+				}
+			}
+			return "", t.fail(s, "`!changed && …` body")
+		}
+		if c, ok := t.splitChanged(x.Cond, false); ok {
+			b, err := t.cacts(x.Body.List)
+			if err != nil {
+				return "", err
+			}
+			return ".ifChanged " + c + " " + b, nil
+		}
+		c, err := t.cond(x.Cond)
+		if err != nil {
+			return "", err
+		}
+		b, err := t.cacts(x.Body.List)
+		if err != nil {
+			return "", err
+		}
+		return ".guard " + c + " " + b, nil
+	case *ast.EmptyStmt:
+		return "", nil
+	}
+	return "", t.fail(s, fmt.Sprintf("%T", s))
+}
+
+// func (t *IncrementalTrack) processControlStatements(node ast.Node, fset *token.FileSet) {
+//   ast.Inspect(node, func(n ast.Node) bool { if n == nil { return false }; var changed bool; switch n := n.(type) {…}; return true }) }
+func translateInspector(fd *ast.FuncDecl) (string, error) {
+	name := fd.Name.Name
+	t := &wTr{env: map[string]string{}, posOf: map[string]string{}, okOf: map[string]string{}}
+	if fd.Recv == nil || len(fd.Recv.List) != 1 || len(fd.Recv.List[0].Names) != 1 {
+		return "", fmt.Errorf("%s: receiver", name)
+	}
+	t.recv = fd.Recv.List[0].Names[0].Name
+	ps := fd.Type.Params.List
+	if len(ps) != 2 || len(ps[0].Names) != 1 || len(ps[1].Names) != 1 {
+		return "", fmt.Errorf("%s: parameters", name)
+	}
+	node := ps[0].Names[0].Name
+	t.fset = ps[1].Names[0].Name
+	if len(fd.Body.List) != 1 {
+		return "", fmt.Errorf("%s: body is not a single ast.Inspect call", name)
+	}
+	es, ok := fd.Body.List[0].(*ast.ExprStmt)
+	if !ok {
+		return "", fmt.Errorf("%s: body is not a single ast.Inspect call", name)
+	}
+	call, ok := es.X.(*ast.CallExpr)
+	if !ok || len(call.Args) != 2 || !isIdent(call.Args[0], node) {
+		return "", fmt.Errorf("%s: body is not ast.Inspect(%s, …)", name, node)
+	}
+	if sel, ok := call.Fun.(*ast.SelectorExpr); !ok || !isIdent(sel.X, "ast") || sel.Sel.Name != "Inspect" {
+		return "", fmt.Errorf("%s: body is not ast.Inspect(%s, …)", name, node)
+	}
+	fl, ok := call.Args[1].(*ast.FuncLit)
+	if !ok || len(fl.Type.Params.List) != 1 || len(fl.Type.Params.List[0].Names) != 1 {
+		return "", fmt.Errorf("%s: callback", name)
+	}
+	n := fl.Type.Params.List[0].Names[0].Name
+	b := fl.Body.List
+	if len(b) != 4 {
+		return "", fmt.Errorf("%s: callback is not {nil check; var changed bool; type switch; return true}", name)
+	}
+	nc, ok := b[0].(*ast.IfStmt)
+	okNil := false
+	if ok && nc.Init == nil && nc.Else == nil && len(nc.Body.List) == 1 {
+		if be, ok := nc.Cond.(*ast.BinaryExpr); ok && be.Op == token.EQL && isNilIdent(be.Y) && isIdent(be.X, n) {
+			if r, ok := nc.Body.List[0].(*ast.ReturnStmt); ok && len(r.Results) == 1 && isIdent(r.Results[0], "false") {
+				okNil = true
+			}
+		}
+	}
+	if !okNil {
+		return "", fmt.Errorf("%s: first statement of the callback is not `if %s == nil { return false }`", name, n)
+	}
+	ds, ok := b[1].(*ast.DeclStmt)
+	okVar := false
+	if ok {
+		if gd, ok := ds.Decl.(*ast.GenDecl); ok && gd.Tok == token.VAR && len(gd.Specs) == 1 {
+			if vs, ok := gd.Specs[0].(*ast.ValueSpec); ok && len(vs.Names) == 1 && vs.Names[0].Name == "changed" && len(vs.Values) == 0 && isIdent(vs.Type, "bool") {
+				okVar = true
+			}
+		}
+	}
+	if !okVar {
+		return "", fmt.Errorf("%s: second statement of the callback is not `var changed bool`", name)
+	}
+	ts, ok := b[2].(*ast.TypeSwitchStmt)
+	if !ok || ts.Init != nil {
+		return "", fmt.Errorf("%s: third statement of the callback is not a type switch", name)
+	}
+	as, ok := ts.Assign.(*ast.AssignStmt)
+	if !ok || len(as.Lhs) != 1 || len(as.Rhs) != 1 {
+		return "", fmt.Errorf("%s: type switch guard", name)
+	}
+	ta, ok := as.Rhs[0].(*ast.TypeAssertExpr)
+	if !ok || ta.Type != nil || !isIdent(ta.X, n) {
+		return "", fmt.Errorf("%s: type switch is not on the callback's node", name)
+	}
+	if r, ok := b[3].(*ast.ReturnStmt); !ok || len(r.Results) != 1 || !isIdent(r.Results[0], "true") {
+		return "", fmt.Errorf("%s: the callback does not end with `return true`", name)
+	}
+	bindName := as.Lhs[0].(*ast.Ident).Name
+	var arms []string
+	for _, cs := range ts.Body.List {
+		cc, ok := cs.(*ast.CaseClause)
+		if !ok {
+			return "", fmt.Errorf("%s: switch clause", name)
+		}
+		t.env = map[string]string{}
+		t.okOf = map[string]string{}
+		t.bind(bindName, nil)
+		body, err := t.cacts(cc.Body)
+		if err != nil {
+			return "", fmt.Errorf("%s: %v", name, err)
+		}
+		if cc.List == nil {
+			arms = append(arms, "([\"*\"], "+body+")")
+			continue
+		}
+		var kinds []string
+		for _, ty := range cc.List {
+			st, ok := ty.(*ast.StarExpr)
+			if !ok {
+				return "", fmt.Errorf("%s: case type", name)
+			}
+			sel, ok := st.X.(*ast.SelectorExpr)
+			if !ok || !isIdent(sel.X, "ast") {
+				return "", fmt.Errorf("%s: case type", name)
+			}
+			kinds = append(kinds, fmt.Sprintf("%q", sel.Sel.Name))
+		}
+		arms = append(arms, "(["+strings.Join(kinds, ", ")+"], "+body+")")
+	}
+	return "[" + strings.Join(arms, ",\n    ") + "]", nil
+}
+
 func runWalker(args []string) error {
 	repo := os.Getenv("VERIF_REPO")
 	if repo == "" {
@@ -567,12 +932,26 @@ func runWalker(args []string) error {
 			}
 		}
 	}
+	inspector := ""
+	for _, d := range f.Decls {
+		if fd, ok := d.(*ast.FuncDecl); ok && fd.Body != nil && fd.Recv != nil && fd.Name.Name == "processControlStatements" {
+			s, err := translateInspector(fd)
+			if err != nil {
+				terr = append(terr, err.Error())
+			} else {
+				inspector = s
+			}
+		}
+	}
 	var b strings.Builder
 	b.WriteString("import GoatSpec.WalkIR\n/-! GENERATED by `vh walker` from /repo/pkg/tracking/increment.go (go/parser, purely syntactic) on every run — do not edit.\n    The statement and expression walkers as `WalkIR` values; an untranslatable construct leaves the\n    walker out (its theorems in Properties/Walker.lean then fail to elaborate). -/\nnamespace GoatSpec.Walker\nopen GoatSpec.WalkIR\n\n")
 	for _, w := range want {
 		if s, ok := got[w]; ok {
 			fmt.Fprintf(&b, "def %s : Walker := ⟨\n   %s⟩\n\n", w, s)
 		}
+	}
+	if inspector != "" {
+		fmt.Fprintf(&b, "def processControlStatements : Inspector := ⟨\n   %s⟩\n\n", inspector)
 	}
 	for _, e := range terr {
 		fmt.Fprintf(&b, "-- translation error: %s\n", e)
